@@ -1,4 +1,6 @@
 """C07 - only advertised terminal features are used; fallbacks are faithful."""
+import vselftest
+from checks import selfmut
 import json
 
 
@@ -38,6 +40,12 @@ def main(c):
     if replay_kind in (None, "session"):
         td = c.drive(drv, "c07", replay=c.replay, sub="sessions")
         rejects, _ = c.validate_traces(specs, "Caps_Trace.tla", "Caps_Trace.cfg", td)
+        if not c.replay:
+            c.cov["binding_selftest"] = vselftest.run(c, specs, "Caps_Trace.tla", "Caps_Trace.cfg", td, {r["scn"] for r in rejects}, [
+                ("same session, nothing advertised", selfmut.nothing_advertised),
+                ("capability accessor flipped", selfmut.accessor_flipped),
+                ("frame: glyph of cell (0,0)", selfmut.frame_glyph()),
+            ])
         idx = c.load_index(td)
         c.count_distinct(idx)
         for s in list(idx.values())[:2]:
